@@ -60,12 +60,15 @@ IsRef(x) == x[1] = "ref"
 (* are enumerated (hash wildcard, keys(), values()); the evaluator takes    *)
 (* an environment o = [ord |-> "asc" or "desc" (by key), xf |-> S] and the  *)
 (* generator marks a case order-dependent when the two results differ.     *)
-(* o.xf is a set of names of KNOWN DEVIATIONS of the implementation under  *)
-(* test; where the specification's result and the named deviant reading    *)
-(* differ, the result is DC(name) instead of the specified one, so that a  *)
-(* check can stay green while the finding is open (constant               *)
-(* KnownDeviations of spec/gen/MC_C13.tla; see notes/C13.md, "SUSPECTED    *)
-(* DEFECTS").  With o.xf = {} the evaluator is the specification.          *)
+(* With o.xf = {} the evaluator is the specification, and every predicted  *)
+(* result is computed that way.  o.xf is only used to CLASSIFY cases: it   *)
+(* is a set of names of known deviations of the implementation under test  *)
+(* (notes/C13.md, "SUSPECTED DEFECTS"; /verif/known_findings.jsonl); where *)
+(* the specified result and the named deviant reading differ, Ev returns   *)
+(* DC(name) instead, so  Ev(.., xf = {n}) # Ev(.., xf = {})  says "this     *)
+(* (expression, document) falls into deviation class n".  The generator    *)
+(* emits those names with the case (field "dev"); the case is generated,   *)
+(* predicted and compared like any other.                                  *)
 RECURSIVE SeqLess(_, _)
 SeqLess(a, b) == IF b = <<>> THEN FALSE
                  ELSE IF a = <<>> THEN TRUE
@@ -458,6 +461,19 @@ UsesOrder(e) == \/ e[1] = "vpr"
                 \/ (e[1] = "fn" /\ e[2] \in {"keys", "values"})
                 \/ \E i \in 1..Len(Children(e)) : UsesOrder(Children(e)[i])
 
+(* Can the expression trigger a value-level known deviation at all?  (Only *)
+(* saves work: the classification below is skipped when FALSE.)            *)
+RECURSIVE MayDeviate(_)
+MayDeviate(e) == \/ e[1] = "fil"
+                 \/ (e[1] \in {"prj", "vpr", "flt"} /\ e[3] # <<"cur">>)
+                 \/ (e[1] = "cmp" /\ e[2] \in {"eq", "ne"})
+                 \/ (e[1] = "fn" /\ e[2] \in {"merge", "sort", "sort_by", "max_by", "min_by"})
+                 \/ \E i \in 1..Len(Children(e)) : MayDeviate(Children(e)[i])
+ValueDeviationNames == {"filter-on-non-array", "merge-no-override", "projection-skips-null", "sort-singleton",
+                        "null-vs-reference-equality", "by-key-error-ignored"}
+ShapeDeviationNames == {"operator-before-pipe", "pipe-into-literal", "argument-context-leak", "parenthesised-operand",
+                        "multiselect-leading-star"}
+
 (* The observable of one search: result under ascending and descending     *)
 (* member enumeration.                                                      *)
 Env(ord, xf) == [ord |-> ord, xf |-> xf]
@@ -466,9 +482,8 @@ SearchDesc(e, d) == Ev(e, d, Env("desc", {}))
 
 -----------------------------------------------------------------------------------------------------------------------------------------------------
 (* KNOWN DEVIATIONS of the implementation under test that are triggered by *)
-(* the shape of the expression (notes/C13.md, "SUSPECTED DEFECTS").  The   *)
-(* generator can leave such expressions out (constant KnownDeviations of   *)
-(* spec/gen/MC_C13.tla).                                                    *)
+(* the shape of the expression (notes/C13.md, "SUSPECTED DEFECTS").  Used   *)
+(* only to tag generated cases with the class names (field "dev").         *)
 (*  "operator-before-pipe": the pipe has the lowest precedence (the        *)
 (*    specification's list: pipe < or < and < unary not), so "!a | b" is   *)
 (*    "(!a) | b" and "a || b | c" is "(a || b) | c".  Affected: a pipe     *)
